@@ -37,7 +37,9 @@ ASSUME = [
     "identifiability is proved in one dimension for known levels only; fitted levels and higher dimensions are covered by measurement",
 ]
 RULE = ("one evaluation = one locate_droplets(refine=True) call on a rendered image; grid families cart1/cart2/cart3 (random "
-        "periodicity, mildly anisotropic), polar, spherical, cylindrical (periodic_z or not) with 12-32 cells per axis; image clean or "
+        "periodicity mask, mildly anisotropic, NON-SQUARE: cell counts 16-20 vs 36-48 in 2-d, 12-14 vs 24-30 in 3-d, random axis order), "
+        "polar, spherical, cylindrical (periodic_z or not); 60 % of the centres forced within one radius of a periodic face of one "
+        "axis or of all periodic axes (corners); image clean or "
         "affine (a in {0.25..3}, b in {-1..5}); threshold rules extrema/mean/otsu/numeric mid-level; intensities supplied, supplied+fitted, "
         "automatic+fitted; emulsions of two droplets on 2-d grids; all non-trivial (the candidate differs from the truth); distinct by the full case")
 
@@ -53,12 +55,57 @@ def refine_args(opt: str, a: float, b: float) -> dict:
     return {"vmin": None, "vmax": None, "adjust_values": True}
 
 
+def gen_grid_c05(rng: random.Random, fam: str) -> dict:
+    """grids for the recovery claim: Cartesian grids are NON-SQUARE (cell counts differ by a factor >= 1.8 between axes,
+    in random axis order), with every periodicity mask and mildly anisotropic spacing"""
+    if not fam.startswith("cart") or fam == "cart1":
+        return rc.gen_grid(rng, fam, big=True)
+    d = int(fam[4])
+    small, large = ((16, 20), (36, 48)) if d == 2 else ((12, 14), (24, 30))
+    counts = [rng.randint(*large)] + [rng.randint(*small) for _ in range(d - 1)]
+    if rng.random() < 0.15:
+        counts = [counts[1]] * d          # a share of square / cubic grids stays in the stream
+    rng.shuffle(counts)
+    h0 = rng.choice([0.5, 1.0, 1.0, 0.75, 1.25, 2.0])
+    bounds = []
+    for n in counts:
+        h = h0 * rng.choice([1.0, 1.0, 1.0, 1.125, 0.875, 1.25])
+        lo = rc.dy(rng, -4, 4)
+        bounds.append([lo, lo + n * h])
+    mask = [rng.random() < 0.6 for _ in range(d)]
+    return {"family": "cartesian", "bounds": bounds, "shape": counts, "periodic": mask}
+
+
+def straddle(rng: random.Random, gs: dict, truth: dict) -> str:
+    """move the centre to within one radius of a periodic face: of one randomly chosen periodic axis, or (a third of the
+    cases) of every periodic axis (edges / corners); returns what was done"""
+    axes = rc.grid_axes(gs)
+    fam = gs["family"]
+    if fam == "cartesian":
+        per = [i for i, a in enumerate(axes) if a[3]]
+        idx = {i: i for i in per}
+    elif fam == "cylindrical" and axes[1][3]:
+        per, idx = [1], {1: 2}
+    else:
+        return "none"
+    if not per:
+        return "none"
+    chosen = per if rng.random() < 0.34 else [rng.choice(per)]
+    for i in chosen:
+        lo, hi, n, _ = axes[i]
+        face = lo if rng.random() < 0.5 else hi
+        x = face + rng.uniform(-1, 1) * truth["radius"]
+        truth["position"][idx[i]] = lo + (x - lo) % (hi - lo)
+    return "corner" if len(chosen) > 1 else f"axis{chosen[0]}"
+
+
 def gen_single(rng: random.Random, k: int) -> dict:
     fam = rc.FAMILIES[k % 6]
-    gs = rc.gen_grid(rng, fam, big=True)
+    gs = gen_grid_c05(rng, fam)
     truth = rc.gen_truth(rng, gs, "DiffuseDroplet", 0, resolvable=True)
+    how = straddle(rng, gs, truth) if rng.random() < 0.6 else "none"
     isp = rc.gen_image_spec(rng, truth, ["clean", "affine"][(k // 6) % 2])
-    return {"grid": gs, "image": isp, "rule": RULES[(k // 12) % 4], "opt": OPTS[(k // 3) % 3]}
+    return {"grid": gs, "image": isp, "rule": RULES[(k // 12) % 4], "opt": OPTS[(k // 3) % 3], "straddles": how}
 
 
 def gen_emulsion(rng: random.Random, k: int) -> dict:
@@ -213,6 +260,11 @@ def check(ctx: vlib.Ctx) -> int:
         ctx.case([tag, case], nontrivial=True)
         ctx.count("family", rc.family_name(gs))
         ctx.count("periodic_axes", sum(1 for a in rc.grid_axes(gs) if a[3]))
+        if gs["family"] == "cartesian" and len(gs["shape"]) > 1:
+            ctx.count("cartesian_cell_count_ratio", "square" if len(set(gs["shape"])) == 1 else
+                      ("first axis longest" if gs["shape"][0] == max(gs["shape"]) else "first axis not longest"))
+            ctx.count("cartesian_periodic_mask", "".join("p" if p else "-" for p in gs["periodic"]))
+        ctx.count("centre_straddles_periodic_face", case.get("straddles", "none"))
         ctx.count("image", case["image"]["kind"])
         ctx.count("threshold_rule", case["rule"])
         ctx.count("intensities", case["opt"])
